@@ -139,6 +139,13 @@ pub fn c07_k_make_credential_small() {
     mc_case::<17, 3, 3>();
 }
 
+/// quick-tier variant: aaguid <= 2, credential id <= 2, public key <= 1 byte
+#[kani::proof]
+#[kani::unwind(34)]
+pub fn c07_k_make_credential_tiny() {
+    mc_case::<2, 2, 1>();
+}
+
 /// Capacity frontier with concrete lengths: total == 676 fits exactly, 677 fails with Error::Other;
 /// no shortened data is returned.
 fn frontier(id_len: usize, key_len: usize) {
